@@ -5,8 +5,9 @@
    Exceptions: a computation ends with RNorm or RExn x and keeps the state
    reached so far.  They are caught exactly where the code catches them:
    SimpleLoop.loop catches SwitchWorld raised inside its try block (time
-   function and world.process) - NOT a SwitchWorld raised while it carries
-   out the switch in the except clause -, Loop.start catches Quit, and
+   function and world.process) and, in the except clause, keeps switching as
+   long as carrying out a switch raises another SwitchWorld (repaired code,
+   /repo ce4190f); Loop.start catches Quit, and
    SimpleLoop.start resets the timestamp in a finally clause.
    No proofs in this file. *)
 From Coq Require Import ZArith List Bool Arith.
@@ -61,6 +62,26 @@ Section Loop.
     let '(s5, w', l5) := handle_call h s4 in                 (* world_handle() once more *)
     (emit (l3 ++ l5) ;; enable react w' ;; upd (set_inh false)) s5.
 End Loop.
+
+(* except SwitchWorld as ex:
+     while ex is not None:
+         try: self.switch(ex.world_handle, ex.clear_current, ex.clear_next); ex = None
+         except SwitchWorld as nested_ex: ex = nested_ex
+   n bounds the number of rounds (every further round needs a reaction) *)
+Fixpoint handler (react : ekind -> action -> M) (n : nat) (h : Z) (cc cn : bool) : M := fun s =>
+  match n with
+  | O => None
+  | S n' =>
+      match loop_switch react h cc cn s with
+      | None => None
+      | Some (s1, l1, RExn (XSW h2 cc2 cn2 _)) =>
+          match handler react n' h2 cc2 cn2 s1 with
+          | None => None
+          | Some (s2, l2, r2) => Some (s2, l1 ++ l2, r2)
+          end
+      | Some (s1, l1, r1) => Some (s1, l1, r1)
+      end
+  end.
 
 (* a reaction is performed by the listener's callback; fuel = nesting depth *)
 Fixpoint react_n (n : nat) : ekind -> action -> M :=
@@ -127,7 +148,7 @@ Section Run.
         match perform (react_n fuel) (f_org f) (f_act f) s1 with
         | None => None
         | Some (s2, l2, RExn (XSW h cc cn _)) =>          (* except SwitchWorld as ex: *)
-            match loop_switch (react_n fuel) h cc cn s2 with
+            match handler (react_n fuel) fuel h cc cn s2 with
             | None => None
             | Some (s3, l3, r3) => Some (s3, head ++ lp ++ l2 ++ l3, fres_of r3)
             end
@@ -222,11 +243,16 @@ Definition is_callback (o : origin) : bool :=
 (* scripted origins of frames are never callbacks *)
 Definition frame_origin_ok (f : frame) : bool := negb (is_callback (f_org f)).
 
+(* loop.switch called from OUTSIDE the loop does not end by SwitchWorld (nobody
+   is there to honour a request made by the callbacks it runs) *)
+Definition top_escapes (e : entry) : bool :=
+  match e with ETopExc TSwitch _ _ => true | _ => false end.
+
 Definition wf_b (c : rcase) : bool :=
   forallb (fun n => (1 <=? n)%nat) (c_nps c)
   && first_is_top (c_ops c)
   && forallb (fun x => match fst x with
-                       | OTop _ _ _ _ => true
+                       | OTop _ _ _ _ => negb (existsb top_escapes (snd x))
                        | OStart fs _ _ => forallb frame_origin_ok fs
                        end) (c_ops c)
   && match flat_map (fun x => op_times (fst x)) (c_ops c) with
@@ -241,14 +267,5 @@ Definition k5_entry (e : entry) : bool :=
   | EAct _ (ASwitch h cc cn _) _ ch => cn || (cc && (h =? ch))
   | _ => false
   end.
-(* K10: a switch request (switch() or SwitchWorld) made by a callback while
-   the loop is carrying out a switch *)
-Definition k10_entry (e : entry) : bool :=
-  match e with
-  | EAct (OCallback _ true) (ASwitch _ _ _ _) _ _
-  | EAct (OCallback _ true) (ARaiseSW _ _ _) _ _ => true
-  | _ => false
-  end.
-
 Definition any_entry (p : entry -> bool) (c : rcase) : bool :=
   existsb (fun x => existsb p (snd x)) (c_ops c).
